@@ -199,6 +199,10 @@ func (v *inputFieldDefaultInjectionVisitor) jsonWalker(fieldType int, defaultVal
 	i := 0
 	listOfList := typeDoc.TypeIsList(typeDoc.Types[fieldType].OfType)
 	return func(value []byte, dataType jsonparser.ValueType, offset int, err error) {
+		// the callback is called once per item: the position advances with every item,
+		// also with the items which are left alone (null, scalars)
+		idx := i
+		i++
 		if err != nil {
 			return
 		}
@@ -208,7 +212,7 @@ func (v *inputFieldDefaultInjectionVisitor) jsonWalker(fieldType int, defaultVal
 				return
 			}
 			if replaced {
-				*finalVal, err = jsonparser.Set(defaultValue, newVal, fmt.Sprintf("[%d]", i))
+				*finalVal, err = jsonparser.Set(defaultValue, newVal, fmt.Sprintf("[%d]", idx))
 				defaultValue = *finalVal
 				if err != nil {
 					return
@@ -221,17 +225,14 @@ func (v *inputFieldDefaultInjectionVisitor) jsonWalker(fieldType int, defaultVal
 				return
 			}
 			if replaced {
-				*finalVal, err = jsonparser.Set(defaultValue, newVal, fmt.Sprintf("[%d]", i))
+				*finalVal, err = jsonparser.Set(defaultValue, newVal, fmt.Sprintf("[%d]", idx))
 				defaultValue = *finalVal
 				if err != nil {
 					return
 				}
 				*finalValueReplaced = true
 			}
-		} else {
-			return
 		}
-		i++
 	}
 
 }
